@@ -16,6 +16,18 @@ def _make(kind, cfg):
         from genlm.grammar.parse.earley import Earley
 
         return Earley(add_EOS(cfg).prefix_grammar)
+    if kind == "EarleyPlain":
+        from genlm.grammar.parse.earley import Earley
+
+        return Earley(cfg)
+    if kind == "EarleyRescaledPlain":
+        from genlm.grammar.parse.earley_rescaled import Earley
+
+        return Earley(cfg)
+    if kind == "CKYPlain":
+        from genlm.grammar.parse.cky import IncrementalCKY
+
+        return IncrementalCKY(cfg.cnf)
     if kind == "EarleyRescaled":
         from genlm.grammar.parse.earley_rescaled import Earley
 
@@ -94,12 +106,12 @@ def _history(ctx):
         def fresh_answer(op):
             k = (op[0], tuple(op[1]) if len(op) > 1 else ())
             if k not in fresh:
-                g = make_cfg(ctx, sk, ws)
+                g = make_cfg(ctx, sk, ws, perm=P.get("perm"))
                 obj = _make(kind, g)
                 fresh[k] = _do(kind, obj, op, tokens)
             return fresh[k]
 
-        g0 = make_cfg(ctx, sk, ws)
+        g0 = make_cfg(ctx, sk, ws, perm=P.get("perm"))
         snap = _snapshot(g0)
         okc, _ = ctx.call(f"{kind}: construct", _make, kind, g0, sig=f"{kind}:construct:exception")
         if not okc:
@@ -109,7 +121,7 @@ def _history(ctx):
             hist = [ops[i] for i in hist]
             if hist[-1][0] in ("clear", "chart"):
                 continue  # the last operation must be an observable query
-            g = make_cfg(ctx, sk, ws)
+            g = make_cfg(ctx, sk, ws, perm=P.get("perm"))
             snap = _snapshot(g)
             obj = _make(kind, g)
             ans = None
@@ -217,6 +229,14 @@ def jobs(tier, seed):
             for s in split_job(j, bits):
                 s["params"]["fixed"] = dict(fixed, **s["params"]["fixed"])
                 out.append(s)
+    # string-weight queries on parsers built on the grammar itself (no prefix transform): mutual left recursion with two
+    # entry points, several rule orders (the left-corner prediction closure depends on the internal numbering)
+    mlr = grammar("G-MLR")
+    calls = [("call", list(x)) for x in ["ace", "bde", "adxe", "bcze", "acyzxe", "bdxze", "acye"]]
+    perms = [None, list(reversed(range(mlr.K))), [2, 3, 0, 1, 4, 5, 6, 7], [3, 2, 1, 0, 7, 6, 5, 4]]
+    for kind, cname in [("EarleyPlain", "history"), ("EarleyRescaledPlain", "history_num"), ("CKYPlain", "history")]:
+        for pm in (perms[:2] if quick else perms):
+            out.append(dict(case=cname, params=dict(shape="G-MLR", kind=kind, ops=calls + [("clear",)], n=2, perm=pm, fixed={str(k): 1 for k in range(mlr.K)}), cost=4))
     if not quick:
         # histories of length 4 over a smaller pool (siblings, nesting, repetition, cache clearing)
         pool4 = [("p_next", []), ("p_next", ["a"]), ("p_next", ["b"]), ("p_next", ["a", "b"]), ("p_next", ["a", "a"]), ("clear",)]
